@@ -207,6 +207,14 @@ class Ghost:
         self.input_cache[name] = v
         return v
 
+    def set_of_symbolic_list(self, lst, node):
+        key = ("setof", self.fingerprint(lst))
+        if key not in self.abstract_memo:
+            o = Opaque(z3.Const(self.I.ctx.fresh_name("frozenset"), ObjSort), "frozenset")
+            o.attrs["__source__"] = lst
+            self.abstract_memo[key] = o
+        return self.abstract_memo[key]
+
     def opaque_attr(self, obj, name, node):
         if obj.tag in ("option", "entry") and name == "build":
             # an opaque option encodes to some byte string determined by the option
